@@ -4,6 +4,7 @@ import GeosModel.Model.Norm.Normalize
 import GeosModel.Model.Norm.Orientation
 import GeosModel.Model.Norm.Classify
 import GeosModel.Model.Construct.Check
+import GeosModel.Model.Construct.InteriorPoint
 import GeosModel.Base.F64
 import GeosModel.Base.Kernel
 /-! Driver for C20 (exe `drv_c20`).
@@ -13,6 +14,11 @@ import GeosModel.Base.Kernel
   construct   K kind | G g | H hull | E env | C centroid | S pos valid | B k sup… R r cx cy | M mrr | W mw
                                        -> ok | violated:<conditions>     (exact certificate checkers on the GEOS outputs)
   invariants  I kind | G g | R rev | RR revrev | N norm | CL clone | A a×4 | L l×4 | NP n×4 | NG n×4 | D d×4 | X f×6
+                                       -> ok | violated:<conditions>
+  pos         same line format as construct with only the G and S sections (rectilinear / lattice generators)
+  sequence    Q kind | G g | O op args… result… | O … : a program over registers (r0 = g) — creating ops cl / rv / nm / bd /
+              sub, the in-place NM, observers (env, area, len, np, …) and the queries eqx / eqi / cmp — with the
+              implementation's answers; the stateless model must give the same answers whatever was called before
                                        -> ok | violated:<conditions>
 Each `g` is `srid geom…` in the GTree token grammar (or `err` where an operation threw). -/
 namespace Driver.C20
@@ -197,21 +203,63 @@ def polyArea2 (rs : List (List Pt)) : Int :=
   | [] => 0
   | sh :: hs => absI (area2 sh) - hs.foldl (fun acc h => acc + absI (area2 h)) 0
 
-def checkPos (cv : Conv) (g : G) (out : G) (valid : Bool) : Bool :=
+def firstCoordOK (polys : List (List (List Pt))) (q : Pt) : Bool :=
+  polys.any fun rs => match rs with | (p :: _) :: _ => decide (p = q) | _ => false
+
+/-- `scale · 2^80 / 1e9` : the 1e-9 tolerance in the units of `nearestOK 80` -/
+def tolN (scale : Int) : Nat := scale.toNat * 2 ^ 80 / 1000000000
+
+/-- point on surface / interior point.
+* property (label `point-on-surface`): for a valid geometry with a polygon of positive area the answer lies in the
+  strict interior of one of its polygons (`posCheck`)
+* model (labels `…-model`): `InteriorPointArea` (grid inputs: the answer is the midpoint of a widest section of the
+  modelled scan line of one of the polygons, its ordinate equal to the modelled scan ordinate exactly),
+  `InteriorPointLine` (an interior vertex when there is one, else an end point; nearest to the centroid),
+  `InteriorPointPoint` (a point nearest to the centroid); the class is chosen by `getDimension()` like the code does -/
+def checkPos (cv : Conv) (g : G) (out : G) (valid grid : Bool) (scale : Int) : List String :=
   match out with
   | .point s =>
+    let dim := dimP1 g
+    let polysAll := (polysOf g).map (ringsOfPoly cv)
+    let areal := polysAll.filter fun rs => polyArea2 rs > 0
     match s.pts with
     | [] =>
-      -- an empty answer is only wrong when there is a polygon with positive area to answer for
-      ((polysOf g).map (ringsOfPoly cv)).all fun rs => polyArea2 rs ≤ 0
+      if dim == 3 then
+        (if valid && !areal.isEmpty then ["point-on-surface"] else if polysAll.isEmpty then [] else ["pos-empty-model"])
+      else if dim == 2 then (if (linesOf g).isEmpty then [] else ["pos-empty-model"])
+      else if dim == 1 then (if (pointsOf g).isEmpty then [] else ["pos-empty-model"])
+      else []
     | [p] =>
       let q := cv.pt p
-      let polys := (polysOf g).map (ringsOfPoly cv)
-      let areal := polys.filter fun rs => polyArea2 rs > 0
-      if !areal.isEmpty then (if valid then areal.any (fun rs => posCheck rs q) else true)
-      else memB q (cv.pts (coordsOf g))
-    | _ => false
-  | _ => false
+      if dim == 3 then
+        let prop := if !areal.isEmpty && valid && !(areal.any fun rs => posCheck rs q) then ["point-on-surface"] else []
+        let model :=
+          if polysAll.isEmpty then ["pos-area-model"] else
+          if !grid then (if areal.isEmpty && !memB q (polysAll.flatMap fun rs => rs.flatMap id) then ["pos-area-model"] else []) else
+          let cands := ipaCandidates polysAll
+          let maxW := ipaMaxWidth polysAll
+          let tol := tolQ scale
+          let okCand := cands.any fun c =>
+            decide (2 * q.y = c.2.1) && Q.near (Q.ofInt q.x) c.1 tol && (Q.sub maxW c.2.2).le tol && (⟨0, 1⟩ : Q).lt c.2.2
+          let okFirst := maxW.le tol && firstCoordOK polysAll q
+          if okCand || okFirst then [] else ["pos-area-model"]
+        prop ++ model
+      else if dim == 2 then
+        let lines := (linesOf g).map fun l => cv.pts l.pts
+        let cands := lineCandidates lines
+        if !memB q cands then ["pos-line-model"] else
+        match centroidSpec cv g with
+        | some c => if nearestOK 80 (tolN scale) cands c q then [] else ["pos-line-nearest-model"]
+        | none => []
+      else if dim == 1 then
+        let pts := cv.pts (pointsOf g)
+        if !memB q pts then ["pos-point-model"] else
+        match centroidSpec cv g with
+        | some c => if nearestOK 80 (tolN scale) pts c q then [] else ["pos-point-nearest-model"]
+        | none => []
+      else ["pos-empty-model"]
+    | _ => ["pos-shape-model"]
+  | _ => ["pos-shape-model"]
 
 def parseHexes : List String → Option (List UInt64) := fun l => l.mapM Driver.parseHex64
 
@@ -399,7 +447,7 @@ def constructLine (line : String) : String :=
          | some none => ["centroid-error"] | none => []) ++
         (match posSec, posG with
          | some ["err"], _ => ["pos-error"]
-         | some _, some o => if checkPos cv g o valid then [] else ["point-on-surface"]
+         | some _, some o => checkPos cv g o valid (sec ss "K" == some ["grid"]) scale
          | some _, none => ["pos-parse"]
          | none, _ => []) ++
         (match sec ss "B", mbc with
@@ -502,6 +550,135 @@ def invariantsLine (line : String) : String :=
       verdict (bad1 ++ bad2 ++ bad3 ++ bad4)
     | _ => "parse-error"
 
+
+/-! ## sequences of operations on an object and its copies -/
+
+def fnv (s : String) : UInt64 :=
+  s.toUTF8.foldl (fun h b => (h ^^^ b.toUInt64) * 0x100000001b3) 0xcbf29ce484222325
+
+def dumpNoSrid (g : G) : String := Driver.joinWith " " (showG g)
+
+/-- `getGeometryN(k)`: the k-th element of a collection, the geometry itself (k = 0) otherwise -/
+def subGeom (g : G) (k : Nat) : Option G :=
+  match g with
+  | .multiPoint gs => gs[k]? | .multiLineString gs => gs[k]? | .multiPolygon gs => gs[k]?
+  | .multiCurve gs => gs[k]? | .multiSurface gs => gs[k]? | .collection gs => gs[k]?
+  | g => if k == 0 then some g else none
+
+/-- the coordinates `getEnvelopeInternal()` looks at: a polygon's envelope is its shell's -/
+partial def envCoords : G → List Coord
+  | .polygon sh _ => sh.pts
+  | g => match children g with
+    | [] => coordsOf g
+    | ks => ks.flatMap envCoords
+
+/-- bounds of the XY of the envelope coordinates as integer keys (minx, miny, maxx, maxy) -/
+def keyBox (g : G) : Option (Int × Int × Int × Int) :=
+  match envCoords g with
+  | [] => none
+  | p :: r =>
+    let xs := r.map fun c => F64.key c.x
+    let ys := r.map fun c => F64.key c.y
+    some (minL (F64.key p.x) xs, minL (F64.key p.y) ys, maxL (F64.key p.x) xs, maxL (F64.key p.y) ys)
+
+/-- a ring with one or two points: `normalize()` can leave one behind (each call drops a vertex of a ring whose
+smallest vertex is repeated — the known `repeated-min-vertex` behaviour), and the `LinearRing` constructor, which
+`reverse()` goes through, rejects it -/
+partial def hasShortRing : G → Bool
+  | .linearRing s => 0 < s.pts.length && s.pts.length < 3
+  | .polygon sh hs => (sh :: hs).any fun s => 0 < s.pts.length && s.pts.length < 3
+  | g => (children g).any hasShortRing
+
+/-- `GEOSReverse_r`: error, or the reversed geometry -/
+def reverseApi (g : G) : Option G := if hasShortRing g then none else some (reverse g)
+
+structure SeqState where
+  regs : Array (Option G)
+  seen : List (String × String)
+  bad : List String
+
+def SeqState.reg (st : SeqState) (i : String) : Option G := (i.toNat?.bind fun k => st.regs[k]?).join
+
+def SeqState.push (st : SeqState) (g : Option G) (res : String) (label : String) : SeqState :=
+  let st := { st with regs := st.regs.push g }
+  if (res == "x") == g.isNone then st else { st with bad := label :: st.bad }
+
+/-- an observation must not depend on what was called before: equal values give equal answers -/
+def SeqState.observe (st : SeqState) (obs : String) (g : G) (res : String) : SeqState :=
+  let key := obs ++ " " ++ dumpNoSrid g
+  match st.seen.lookup key with
+  | some r0 => if r0 == res then st else { st with bad := s!"sequence-unstable({obs})" :: st.bad }
+  | none => { st with seen := (key, res) :: st.seen }
+
+def sgnStr (v : Int) : String := if v < 0 then "-1" else if v > 0 then "1" else "0"
+
+def seqObserve (st : SeqState) (flag : SeqState → Bool → String → SeqState) (obs i : String) (res : List String) : SeqState :=
+    match st.reg i with
+    | none => flag st (res == ["x"]) "sequence-bad-op-model"
+    | some g =>
+      let r := Driver.joinWith " " res
+      let st := st.observe obs g r
+      let model : Option String :=
+        if obs == "np" then some (toString (numPoints g))
+        else if obs == "ng" then some (toString (numGeoms g))
+        else if obs == "dim" then some (toString ((dimP1 g : Int) - 1))
+        else if obs == "emp" then some (b01 (coordsOf g).isEmpty)
+        else if obs == "dmp" then some (hex64 (fnv (dumpNoSrid g)))
+        else none
+      let st := match model with
+        | some m => flag st (m == r) s!"sequence-{obs}-model"
+        | none => st
+      if obs == "env" && !unsupported g then
+        let ok := match keyBox g, res.mapM Driver.parseHex64 with
+          | none, _ => res == ["x"]
+          | some (a, b, c, d), some [x0, y0, x1, y1] => F64.key x0 == a && F64.key y0 == b && F64.key x1 == c && F64.key y1 == d
+          | _, _ => false
+        flag st ok "sequence-envelope-model"
+      else st
+
+def seqStep (g0 : G) (st : SeqState) (op : List String) : SeqState :=
+  let flag := fun (st : SeqState) (ok : Bool) (label : String) => if ok then st else { st with bad := label :: st.bad }
+  match op with
+  | ["bd", res] => st.push (some g0) res "sequence-build-model"
+  | ["cl", i, res] => st.push (st.reg i) res "sequence-clone-model"
+  | ["rv", i, res] => st.push ((st.reg i).bind reverseApi) res "sequence-reverse-model"
+  | ["nm", i, res] => st.push ((st.reg i).bind (normalizeApi geosCfg)) res "sequence-normalize-model"
+  | ["sub", i, k, res] => st.push ((st.reg i).bind fun g => k.toNat?.bind (subGeom g)) res "sequence-sub-model"
+  | ["NM", i, res] =>
+    match i.toNat?, st.reg i with
+    | some k, some g =>
+      (match normalizeApi geosCfg g with
+       | some h => flag { st with regs := st.regs.set! k (some h) } (res == "ok") "sequence-normalize-model"
+       | none => flag st (res == "x") "sequence-normalize-model")
+    | _, _ => flag st (res == "x") "sequence-bad-op-model"
+  | [q, i, j, res] =>
+    if q != "eqx" && q != "eqi" && q != "cmp" then seqObserve st flag q i [j, res] else
+    match st.reg i, st.reg j with
+    | some a, some b =>
+      let same := dumpNoSrid a == dumpNoSrid b
+      if q == "eqx" || q == "eqi" then
+        let m := if q == "eqx" then equalsExact geosCfg a b else equalsIdentical geosIdCfg a b
+        if res == b01 m then st
+        else if same && res == "0" then { st with bad := s!"sequence-equals(identical-values)" :: st.bad }
+        else { st with bad := "sequence-equals-model" :: st.bad }
+      else if q == "cmp" then
+        if res == sgnStr (cmpG geosCfg a b) then st
+        else if same then { st with bad := "sequence-compare(identical-values)" :: st.bad }
+        else { st with bad := "sequence-compare-model" :: st.bad }
+      else flag st false "sequence-bad-op-model"
+    | _, _ => flag st (res == "x") "sequence-bad-op-model"
+  | obs :: i :: res => seqObserve st flag obs i res
+  | _ => flag st false "sequence-bad-op-model"
+
+def sequenceLine (line : String) : String :=
+  let ss := sections (Driver.tokens line)
+  match (sec ss "G").bind fun ts => match parseGeom ts with | some (g, []) => some g.g | _ => none with
+  | none => "parse-error"
+  | some g =>
+    let ops := ss.filterMap fun (t, r) => if t == "O" then some r else none
+    let st := ops.foldl (seqStep g) ⟨#[some g], [], []⟩
+    verdict st.bad.reverse
+
 def compareLine (line : String) : String :=
   match Driver.tokens line with
   | "P" :: rest =>
@@ -517,6 +694,8 @@ def handle (stream : String) : String → String :=
   | "normalize" => normalizeLine
   | "normclass" => classLine
   | "construct" => constructLine
+  | "pos" => constructLine
+  | "sequence" => sequenceLine
   | "compare" => compareLine
   | "invariants" => invariantsLine
   | _ => fun _ => "unknown-stream"
